@@ -877,6 +877,7 @@ pub fn check(case: &Case, out: &mut CaseOut) {
 
 pub fn property() -> Property {
     Property {
+        fuzz: vec![],
         id: "C04",
         rule: "a case = history of 3..12 timed events over a deliberately small alphabet (2 RFC 3261 branches, a cookie-less branch, no branch, the branches of ezk's own client transactions; methods INVITE/OPTIONS/BYE/CANCEL/ACK/PRACK; 2 Call-IDs, From-tags, CSeq numbers, sent-by values): peer requests, application answers (provisional / 2xx / failure) to held requests, application sends, peer responses whose branch and CSeq method are each equal or different; gaps from a grid bracketing T4, 64*T1 and the INVITE timeout window. A symbolic RFC 3261 17.1.3/17.2.3 reference model predicts for every message: absorbed / shown to layers / delivered to client transaction X / dropped. Non-trivial = two keys differing in exactly one component, a response with foreign branch or CSeq method, or an arrival within 5 ms of a transaction's end; distinct by the event sequence.",
         assumptions: vec![
